@@ -266,9 +266,7 @@ func randOpNames(r *common.Rng) []string {
 func randBM(r *common.Rng) (*bondmachine.Bondmachine, string) {
 	bm := new(bondmachine.Bondmachine)
 	bm.Rsize = []uint8{8, 16, 32}[r.Intn(3)]
-	if r.Chance(3, 4) {
-		bm.Init()
-	}
+	bm.Init() // cmd/bondmachine and basm call Init on every machine they create
 	nd := 1 + r.Intn(3)
 	for d := 0; d < nd; d++ {
 		m, _ := randMachine(r, randOpNames(r))
@@ -312,7 +310,7 @@ func randBM(r *common.Rng) (*bondmachine.Bondmachine, string) {
 		sos = append(sos, randSO(r))
 	}
 	bm.Add_shared_objects(sos)
-	for k := r.Intn(5); k > 0; k-- {
+	for k := r.Intn(8); k > 0; k-- {
 		if len(bm.Shared_objects) == 0 || len(bm.Processors) == 0 {
 			break
 		}
@@ -468,6 +466,46 @@ func buildCases(r *common.Rng, n int) []*genCase {
 			bm.Connect_processor_shared_object([]string{"0", strconv.Itoa(k)})
 		}
 		cases = append(cases, &genCase{kind: "bm", tag: "allso", bm: bm, forceVlog: true})
+	}
+	// fixed 2b: #domains != #processors with every shared-object kind attached — repeated domain, unused domains,
+	// non-identity processor->domain maps (what the step-by-step `bondmachine -add-domains / -add-processor` workflow gives)
+	for _, shape := range []struct {
+		name  string
+		ndom  int
+		procs []int
+	}{
+		{"shareddomain", 1, []int{0, 0}},
+		{"shareddomain3", 1, []int{0, 0, 0}},
+		{"unuseddomain", 3, []int{2}},
+		{"permuted", 3, []int{2, 0, 1}},
+		{"mixed", 2, []int{1, 1, 0, 1}},
+		{"moredomains", 4, []int{3, 1}},
+	} {
+		bm := new(bondmachine.Bondmachine)
+		bm.Rsize = 8
+		bm.Init()
+		for d := 0; d < shape.ndom; d++ {
+			m, _ := randMachine(r, []string{"nop", "r2s", "s2r", "k2r", "r2u", "u2r", "q2r", "r2q", "t2r", "r2t", "r2v", "lfsr82r", "hit", "wrd", "wwr", "chc", "chw"})
+			m.Rsize = 8
+			m.Modes = []string{"ha"}
+			bm.Domains = append(bm.Domains, m)
+		}
+		for _, d := range shape.procs {
+			bm.Add_processor(d)
+		}
+		sos := []string{}
+		for _, f := range soSamples {
+			sos = append(sos, f(r))
+		}
+		bm.Add_shared_objects(sos)
+		for p := range bm.Processors {
+			for k := range bm.Shared_objects {
+				if (p+k)%2 == 0 || p == 0 {
+					bm.Connect_processor_shared_object([]string{strconv.Itoa(p), strconv.Itoa(k)})
+				}
+			}
+		}
+		cases = append(cases, &genCase{kind: "bm", tag: "topo:" + shape.name, bm: bm, forceVlog: true})
 	}
 	// fixed 3: every dynamic family once (linear quantizer included: the ranges are configured in this process)
 	{
